@@ -25,6 +25,7 @@ from taskiq import (
 from taskiq.acks import AcknowledgeType
 from taskiq.kicker import AsyncKicker
 from taskiq.message import BrokerMessage
+from taskiq.depends.progress_tracker import ProgressTracker
 from taskiq.receiver import Receiver
 
 from mon.vloop import StepBudgetExceeded, VirtualDeadlock, WallWatchdog, run_virtual
@@ -38,6 +39,25 @@ class CustomError(Exception):
 
 class CustomBase(BaseException):
     pass
+
+
+class FalsyError(Exception):
+    """An exception that evaluates false (e.g. an error carrying an empty list of problems)."""
+
+    def __bool__(self) -> bool:
+        return False
+
+
+class EmptyLenError(Exception):
+    def __len__(self) -> int:
+        return 0
+
+
+class _PlainCls:
+    """A plain class: pydantic cannot build a schema for it (annotation of a task parameter)."""
+
+    def __init__(self, v: Any = None) -> None:
+        self.v = v
 
 
 class HookBoom(Exception):
@@ -64,6 +84,8 @@ EXC_POOL: Dict[str, Any] = {
     "GeneratorExit": GeneratorExit,
     "TimeoutError": TimeoutError,
     "OSError": OSError,
+    "FalsyError": FalsyError,
+    "EmptyLenError": EmptyLenError,
 }
 
 
@@ -331,6 +353,13 @@ class RecordingBackend(AsyncResultBackend):  # type: ignore[type-arg]
         self.store[task_id] = result
         sc.trace.add("set_exit", d)
 
+    async def set_progress(self, task_id: str, progress: Any) -> None:
+        self.sc.trace.add("set_progress", OWNER.get(), task_id=task_id, state=str(progress.state), meta=safe_json(progress.meta))
+        self.__dict__.setdefault("progress", {})[task_id] = progress
+
+    async def get_progress(self, task_id: str) -> Any:
+        return self.__dict__.setdefault("progress", {}).get(task_id)
+
     async def is_result_ready(self, task_id: str) -> bool:
         return task_id in self.store
 
@@ -360,7 +389,13 @@ def build_middlewares(sc: Scenario) -> List[TaskiqMiddleware]:
         attrs: Dict[str, Any] = {}
         for hook, hs in mws.items():
             attrs[hook] = _make_hook(sc, i, hook, hs)
-        cls = type(f"RecMw{i}", (TaskiqMiddleware,), attrs)
+        inherit = any(isinstance(hs, dict) and hs.get("inherit") for hs in mws.values())
+        if inherit:
+            # hooks defined on a library base class, the registered middleware is a subclass of it
+            base = type(f"BaseMw{i}", (TaskiqMiddleware,), attrs)
+            cls = type(f"RecMw{i}", (base,), {"extra": 1})
+        else:
+            cls = type(f"RecMw{i}", (TaskiqMiddleware,), attrs)
         out.append(cls())
     return out
 
@@ -448,7 +483,8 @@ def build_functions(sc: Scenario, broker: AsyncBroker) -> None:
     ns: Dict[str, Any] = {
         "TaskiqDepends": TaskiqDepends, "Context": Context, "asyncio": asyncio,
         "contextlib": contextlib, "_sc": sc, "_echo": _echo, "OWNER": OWNER,
-        "DepBoom": DepBoom, "_dep_lat": _dep_lat, "_run_beh": _run_beh,
+        "DepBoom": DepBoom, "_dep_lat": _dep_lat, "_run_beh": _run_beh, "_PlainCls": _PlainCls,
+        "ProgressTracker": ProgressTracker,
         "_run_beh_sync": _run_beh_sync,
     }
     deps = spec.get("deps", {})
@@ -507,7 +543,12 @@ def build_functions(sc: Scenario, broker: AsyncBroker) -> None:
         emit_dep(name)
 
     for tname, ts in spec.get("tasks", {}).items():
-        params = ["tok", "*args"]
+        params = ["tok"]
+        if ts.get("plain_param"):
+            params.append("obj: _PlainCls = None")
+        params.append("*args")
+        if ts.get("progress"):
+            params.append("pt: ProgressTracker = TaskiqDepends()")
         for s in ts.get("deps", []):
             uc = deps[s].get("cache", True)
             params.append(f"{s}=TaskiqDepends({s}, use_cache={uc})")
@@ -519,9 +560,10 @@ def build_functions(sc: Scenario, broker: AsyncBroker) -> None:
         echo = "_echo(ctx)" if ts.get("ctx") else "None"
         fn = "fn_" + tname
         if ts.get("fn", "async") == "async":
+            pt = "pt" if ts.get("progress") else "None"
             src = (
                 f"async def {fn}({ps}):\n"
-                f"    return await _run_beh(_sc, tok, args, kwargs, {depvals}, {echo})\n"
+                f"    return await _run_beh(_sc, tok, args, kwargs, {depvals}, {echo}, {pt})\n"
             )
         else:
             src = (
@@ -571,11 +613,13 @@ def _outcome(sc: Scenario, d: Any, tok: str, beh: Dict[str, Any], depvals: Any, 
     raise exc
 
 
-async def _run_beh(sc: Scenario, tok: str, args: Any, kwargs: Any, depvals: Any, echo: Any) -> Any:
+async def _run_beh(sc: Scenario, tok: str, args: Any, kwargs: Any, depvals: Any, echo: Any, pt: Any = None) -> Any:
     d = OWNER.get()
     beh = _beh_for(sc, tok)
     sc.trace.add("task_start", d, tok=tok, args=safe_json(list(args)), kwargs=safe_json(kwargs),
                  echo=echo, deps=safe_json(depvals))
+    if pt is not None:
+        await pt.set_progress("STARTED", meta={"tok": tok})
     try:
         for step in beh.get("dur", []):
             if step == "y":
@@ -596,6 +640,10 @@ async def _run_beh(sc: Scenario, tok: str, args: Any, kwargs: Any, depvals: Any,
                     await asyncio.sleep(step)
         sc.trace.add("task_end", d, how="cancelled")
         raise
+    if pt is not None:
+        await pt.set_progress("FINISHING")  # state only: keeps the meta reported earlier for *this* task id
+        pr = await pt.get_progress()
+        sc.trace.add("progress", d, tok=tok, meta=safe_json(pr.meta if pr else None), state=str(pr.state) if pr else None)
     return _outcome(sc, d, tok, beh, depvals, echo)
 
 
@@ -661,6 +709,12 @@ def build_payload(sc: Scenario, broker: AsyncBroker, m: Dict[str, Any], tok: str
         return broker.formatter.dumps(raw).message
     kicker = AsyncKicker(tname, broker, labels).with_task_id(tok)
     msg = kicker._prepare_message(tok, *m.get("args", []), **m.get("kwargs", {}))
+    if m.get("partial_types") and msg.labels_types:
+        # labels added after the kicker typed them (e.g. by a pre_send middleware): no type entry.
+        # Only str labels are un-typed here, they arrive as the same str either way.
+        for k, v in labels.items():
+            if isinstance(v, str):
+                msg.labels_types.pop(k, None)
     return broker.formatter.dumps(msg).message
 
 
@@ -668,7 +722,8 @@ def build_payload(sc: Scenario, broker: AsyncBroker, m: Dict[str, Any], tok: str
 # run
 
 
-DEFAULT_TASKS = {"t_async": {"fn": "async"}, "t_sync": {"fn": "sync"}}
+DEFAULT_TASKS = {"t_async": {"fn": "async"}, "t_sync": {"fn": "sync"},
+                 "t_plain": {"fn": "async", "plain_param": True}, "t_plain_sync": {"fn": "sync", "plain_param": True}}
 
 
 class RunResult:
@@ -703,7 +758,7 @@ def run_worker(spec: Dict[str, Any], real: bool = False) -> RunResult:
             MonInMemoryBroker.sc = sc
             broker: Any = MonInMemoryBroker(
                 cast_types=cfg.get("validate", True), max_async_tasks=cfg.get("A") or 30,
-                propagate_exceptions=cfg.get("propagate", True),
+                propagate_exceptions=cfg.get("propagate", True), await_inplace=bool(spec.get("inplace")),
             )
         else:
             broker = ScriptedBroker(sc)
@@ -796,6 +851,19 @@ def run_worker(spec: Dict[str, Any], real: bool = False) -> RunResult:
                 loop.call_at(T0 + info["at"], broker._arrive, info)
         sends = spec.get("client_sends", [])
         if sends:
+            broker2 = None
+            if any(s.get("via_broker2") for s in sends):
+                sc2 = sc
+                broker2 = ScriptedBroker(sc2)
+                broker2.loopback = False
+                broker2.kick_fail = []
+                mws2 = []
+                for j, mw2 in enumerate(spec.get("mws2", [])):
+                    attrs2 = {hook: _make_hook(sc, 100 + j, hook, hs) for hook, hs in mw2.items()}
+                    mws2.append(type(f"RecMwB{j}", (TaskiqMiddleware,), attrs2)())
+                if mws2:
+                    broker2.add_middlewares(*mws2)
+
             async def _send(s: Dict[str, Any]) -> None:
                 tok = s["tok"]
                 sc.beh[tok] = s.get("beh", {"dur": [], "out": "ok"})
@@ -805,7 +873,10 @@ def run_worker(spec: Dict[str, Any], real: bool = False) -> RunResult:
                 labels = dict(s.get("labels", {}))
                 labels["own"] = tok
                 try:
-                    await AsyncKicker(s.get("task", "t_async"), broker, labels).with_task_id(tok).kiq(tok)
+                    kk = AsyncKicker(s.get("task", "t_async"), broker, labels).with_task_id(tok)
+                    if s.get("via_broker2") and broker2 is not None:
+                        kk = kk.with_broker(broker2)  # the receiving broker's middlewares must run
+                    await kk.kiq(tok, *s.get("args", []), **s.get("kwargs", {}))
                     sc.trace.add("send_ok", None, tok=tok)
                 except BaseException as exc:  # noqa: BLE001
                     from taskiq.exceptions import SendTaskError
